@@ -30,32 +30,38 @@ def inflateXF : XF :=
 /-- deflate stage: the model emits stored blocks; only `inflate ∘ deflate = id` is relied on -/
 def deflateXF : XF := { final := fun acc => some (baToNats (Crypto.deflateStored (natsToBA acc))) }
 
+/-- stages that need more than this file knows (content decryption: Jose/Driver/Jwe.lean) -/
+abbrev StageExt := String → Json → Stage → Option Stage
+
 mutual
-  partial def stageOfJson (d : Json) : Option Stage :=
+  partial def stageOfJsonX (ext : StageExt) (d : Json) : Option Stage :=
     match d with
     | .arr (.str "malloc" :: _) => some .sink
     | .arr (.str "file" :: _) => some .sink
     | .arr [.str "buffer", .int c] => some (.buffer c.toNat)
     | .arr [.str "probe", .int k] => some (.probe (some k.toNat))
     | .arr [.str "probe", _] => some (.probe none)
-    | .arr [.str "b64enc", n] => (stageOfJson n).map .b64enc
-    | .arr [.str "b64dec", n] => (stageOfJson n).map .b64dec
+    | .arr [.str "b64enc", n] => (stageOfJsonX ext n).map .b64enc
+    | .arr [.str "b64dec", n] => (stageOfJsonX ext n).map .b64dec
     | .arr [.str "hash", .str a, n] => do
       let h ← hashAlgOfName a
-      let s ← stageOfJson n
+      let s ← stageOfJsonX ext n
       pure (.xform (hashXF h) s)
-    | .arr [.str "inflate", n] => (stageOfJson n).map (.xform inflateXF)
-    | .arr [.str "deflate", n] => (stageOfJson n).map (.xform deflateXF)
-    | .arr [.str "plex", .bool all, .arr subs] => (branchesOfJson subs).map (.plex all)
+    | .arr [.str "inflate", n] => (stageOfJsonX ext n).map (.xform inflateXF)
+    | .arr [.str "deflate", n] => (stageOfJsonX ext n).map (.xform deflateXF)
+    | .arr [.str "plex", .bool all, .arr subs] => (branchesOfJsonX ext subs).map (.plex all)
+    | .arr [.str k, arg, n] => (stageOfJsonX ext n).bind (ext k arg)
     | _ => none
-  partial def branchesOfJson (l : List Json) : Option Branches :=
+  partial def branchesOfJsonX (ext : StageExt) (l : List Json) : Option Branches :=
     match l with
     | [] => some .nil
     | x :: r => do
-      let s ← stageOfJson x
-      let rs ← branchesOfJson r
+      let s ← stageOfJsonX ext x
+      let rs ← branchesOfJsonX ext r
       pure (.cons s rs)
 end
+
+def stageOfJson (d : Json) : Option Stage := stageOfJsonX (fun _ _ _ => none) d
 
 def callJson : Call → Json
   | .feed x => .str ("f:" ++ hexOfNats x)
@@ -78,11 +84,12 @@ def feedsOfJson (a : Json) : List (List Nat) :=
   | some (.arr l) => l.filterMap (fun j => j.strVal?.map unhex)
   | _ => []
 
-def ioOps : List (String × (Json → Json)) := [
-  ("io.run", fun a =>
-    match (a.get? "chain").bind stageOfJson with
-    | none => .obj [("nochain", .bool true)]
-    | some sg => runChainJson sg (feedsOfJson a))
-]
+def ioRunWith (ext : StageExt) (a : Json) : Json :=
+  match (a.get? "chain").bind (stageOfJsonX ext) with
+  | none => .obj [("nochain", .bool true)]
+  | some sg => runChainJson sg (feedsOfJson a)
+
+/-- `io.run` itself is registered in Jose/Driver/Jwe.lean (with the content-decryption stage) -/
+def ioOps : List (String × (Json → Json)) := []
 
 end Jose.Driver
